@@ -70,32 +70,81 @@ def check_partitions(rep, prog):
     rep.saw_function(m.rel + ':' + fn.name)
     r = returns(fn)
     norm_site(rep, m, fn, 'returned vector is normalised by its own sum', r[0].value if len(r) == 1 else None, 'part_inbreeding_probability')
-    t = ast.unparse(fn)
+    # the unnormalised weight the function gives one partition of three individuals, by the number of alternative alleles it carries
+    # (0, all, in between): abstract execution with symbolic genotype counts; the weight is compared algebraically
+    from sa import miniexec as mx
+    from sa import alpha as _alpha
+    known_ = _alpha.load_table().get('__params__', {}).get(m.rel)
+    known_ = set(known_) if known_ is not None else None
+    NI = 3
+    ok, okm, det, detm = True, True, '', ''
     try:
-        sa = {ast.unparse(s.targets[0]): s.value for s in own_nodes(fn) if isinstance(s, ast.Assign) and len(s.targets) == 1}
-        T = Translator({}, call_hook=lambda T_, e, f: Rat.atom('N%s' % ast.unparse(e.args[0])) if f == 'part.count' else (Rat.atom('N') if ast.unparse(e) == 'len(part)' else None))
-        p = T.tr(sa['p'])
-        okp = p.equals((Rat.const(2) * Rat.atom('N2') + Rat.atom('N1')) / (Rat.const(2) * Rat.atom('N')))
-        T2 = Translator({'p': Rat.atom('p')})
-        oka = T2.tr(sa['alpha']).equals(parse_expr('p*(1 - Fx)/Fx')) and T2.tr(sa['beta']).equals(parse_expr('(1 - p)*(1 - Fx)/Fx'))
-        okb = ast.unparse(sa_get(sa, 'p00, p01, p11')) == 'numpy.exp([dadi.Numerics.BetaBinomln(_, 2, alpha, beta) for _ in range(2 + 1)])'
-        okn = flat(ast.unparse(sa_get(sa, 'n, n00, n01, n11'))) == flat('len(part), part.count(0), part.count(1), part.count(2)')
-        app = [c for c in own_nodes(fn) if isinstance(c, ast.Call) and dotted(c.func) == 'numpy.append' and len(c.args) == 2 and 'factorial' in ast.unparse(c.args[1])]
-        okw = False
-        if len(app) == 1:
-            Tw = Translator({}, call_hook=lambda T_, e, f: Rat.atom('F[%s]' % ast.unparse(e.args[0])) if f == 'factorial' else None)
-            w = Tw.tr(app[0].args[1])
-            ref = Rat.atom('F[n]') / (Rat.atom('F[n00]') * Rat.atom('F[n01]') * Rat.atom('F[n11]')) * Rat.atom('pow(p00,n00)') * Rat.atom('pow(p01,n01)') * Rat.atom('pow(p11,n11)')
-            okw = w.equals(ref)
+        for world, total in (('none', 0), ('all', 2 * NI), ('some', 2)):
+            part = mx.Sym('part', length=NI)
+
+            def hook(nm, args, kwargs, total=total):
+                if nm == 'sum' and len(args) == 1 and mx.show(args[0]) == 'part':
+                    return total
+                if nm == 'part.count' and len(args) == 1 and args[0] in (0, 1, 2):
+                    return mx.Sym('n%d%d' % ((0, 0, 1)[args[0]], (0, 1, 1)[args[0]]))
+                return NotImplemented
+            it = mx.Interp(prog, m, known_functions=known_, call_hook=hook)
+            paths = [p_ for p_ in it.run(fn, {'parts': [part], 'Fx': mx.Sym('Fx', truth=True)}) if p_[0][0] == 'return']
+            if len(paths) != 1:
+                raise mx.Undecidable('%d returning paths for a partition with %s alternative alleles' % (len(paths), world))
+            v = paths[0][0][1]
+            # weights / sum(weights): the vector of weights
+            if not (isinstance(v, mx.Sym) and v.struct and v.struct[0] == 'binop' and v.struct[1] == '/'):
+                raise mx.Undecidable('returns %s' % mx.show(v)[:50])
+            vec = v.struct[2]
+            c_ = mx.call_of(vec, 'append')
+            if c_ is not None and len(c_[0]) == 2:
+                w = c_[0][1]
+            else:
+                c_ = mx.call_of(vec, 'array') or mx.call_of(vec, 'asarray')
+                w = c_[0][0][0] if c_ is not None and c_[0] and isinstance(c_[0][0], (list, tuple)) and len(c_[0][0]) == 1 else None
+            if w is None:
+                raise mx.Undecidable('vector of weights %s' % mx.show(vec)[:50])
+            if world != 'some':
+                if not (w == 1 or w == 1.0):
+                    okm, detm = False, 'a partition with %s alternative alleles gets weight %s' % (world, mx.show(w)[:60])
+                continue
+
+            def leaf(x):
+                if isinstance(x, mx.Sym) and not x.struct and re.fullmatch(r'[A-Za-z_]\w*', x.text):
+                    return Rat.atom(x.text)
+                c2 = mx.call_of(x, 'factorial')
+                if c2 is not None and len(c2[0]) == 1:
+                    return Rat.atom('FACT[%s]' % mx.to_rat(c2[0][0], leaf).canon())
+                if isinstance(x, mx.Sym) and x.struct and x.struct[0] == 'binop' and x.struct[1] == '**':
+                    return Rat.atom('POW[%s|%s]' % (mx.to_rat(x.struct[2], leaf).canon(), mx.to_rat(x.struct[3], leaf).canon()))
+                if isinstance(x, mx.Sym) and x.struct and x.struct[0] == 'index' and isinstance(x.struct[2], int):
+                    e_ = mx.call_of(x.struct[1], 'exp')
+                    if e_ is not None and isinstance(e_[0][0], (list, tuple)) and 0 <= x.struct[2] < len(e_[0][0]):
+                        b_ = mx.call_of(e_[0][0][x.struct[2]], 'BetaBinomln')
+                        if b_ is not None and len(b_[0]) == 4 and not b_[1]:
+                            return Rat.atom('PG[%s|%s|%s|%s]' % tuple(mx.to_rat(a_, leaf).canon() for a_ in b_[0]))
+                return None
+            got = mx.to_rat(w, leaf)
+            n_, n00, n01, n11, F = Rat.const(NI), Rat.atom('n00'), Rat.atom('n01'), Rat.atom('n11'), Rat.atom('Fx')
+            pfreq = (Rat.const(2) * n11 + n01) / (Rat.const(2) * n_)
+            al, be = pfreq * (Rat.const(1) - F) / F, (Rat.const(1) - pfreq) * (Rat.const(1) - F) / F
+            pg = [Rat.atom('PG[%d|2|%s|%s]' % (g_, al.canon(), be.canon())) for g_ in range(3)]
+            ref = Rat.atom('FACT[%d]' % NI) / (Rat.atom('FACT[n00]') * Rat.atom('FACT[n01]') * Rat.atom('FACT[n11]'))
+            for pg_, cnt in zip(pg, (n00, n01, n11)):
+                ref = ref * Rat.atom('POW[%s|%s]' % (pg_.canon(), cnt.canon()))
+            ok = got.equals(ref)
+            det = 'weight of a polymorphic partition = %s' % ('multinomial coefficient times the beta-binomial genotype probabilities' if ok else got.canon()[:160])
         bb = positional_params(prog.func(NUM, 'BetaBinomln'))
-        ok = okp and oka and okb and okn and okw and bb == ['i', 'n', 'a', 'b']
-        det = 'p=%s alpha/beta=%s BetaBinom pairing=%s counts=%s weight=%s' % (okp, oka, okb, okn, okw)
-    except (AlgebraError, KeyError) as e:
+        ok = ok and bb == ['i', 'n', 'a', 'b']
+    except mx.Undecidable as e:
         ok, det = False, 'not recognised: %s' % e
+        okm, detm = okm, detm
+    except AlgebraError as e:
+        ok, det = False, 'not evaluable: %s' % e
     rep.ob('R-ALG', 'part_inbreeding_probability weights', ok, det, m.rel, fn.lineno,
            what='n!/(n00! n01! n11!) p00^n00 p01^n01 p11^n11 with p_g = BetaBinom(g; 2, p(1-F)/F, (1-p)(1-F)/F), p = alt-allele frequency')
-    okm = has(t, 'if sum(part) != 0 and sum(part) != 2 * len(part):') and has(t, 'part_prob = numpy.append(part_prob, 1)')
-    rep.ob('R-DOM', 'part_inbreeding_probability monomorphic', okm, 'all-reference / all-alternative partitions get weight 1 (p = 0 or 1 has no beta-binomial)', m.rel, fn.lineno,
+    rep.ob('R-DOM', 'part_inbreeding_probability monomorphic', okm, detm or 'all-reference / all-alternative partitions get weight 1 (p = 0 or 1 has no beta-binomial)', m.rel, fn.lineno,
            what='the degenerate allele frequencies are handled without evaluating the beta-binomial')
     # ---- partitions_and_probabilities ------------------------------------------------------------------------------------
     fn = prog.func(LP, 'partitions_and_probabilities')
